@@ -17,16 +17,16 @@ import (
 // into the registration of calls (directly: deriveSort(deriveKeys(m)); through variables: ks := deriveKeys(m); deriveSort(ks)),
 // and a remnant that go/build cannot read makes the load fail. The structural necessary condition decided here:
 //
-//  (a) every loader.Config literal of the driver installs a FindPackage hook F;
-//  (b) F obtains the package description from (*build.Context).Import and, on every path to a return on which the package
-//      is non-nil and marked stale, has replaced its GoFiles by W(GoFiles, derivedFilename), where W — evaluated abstractly on
-//      literal lists — returns exactly the names different from its second argument, in order;
-//  (c) the load that (*plugins).Load performs (whose program is the one the first pass of every package works on) marks
-//      every path it loads as stale; a load that marks nothing (the reload between passes) is preceded in its function by
-//      the Print of this run, so the file it reads is this run's own output;
-//  (d) (remnant clause) F also removes derivedFilename from InvalidGoFiles and clears the error it returns only under a
-//      condition on what remains of InvalidGoFiles — a derived file go/build cannot read (cut before its package clause is
-//      complete) is then not an error, and no other error is swallowed.
+//	(a) every loader.Config literal of the driver installs a FindPackage hook F;
+//	(b) F obtains the package description from (*build.Context).Import and, on every path to a return on which the package
+//	    is non-nil and marked stale, has replaced its GoFiles by W(GoFiles, derivedFilename), where W — evaluated abstractly on
+//	    literal lists — returns exactly the names different from its second argument, in order;
+//	(c) the load that (*plugins).Load performs (whose program is the one the first pass of every package works on) marks
+//	    every path it loads as stale; a load that marks nothing (the reload between passes) is preceded in its function by
+//	    the Print of this run, so the file it reads is this run's own output;
+//	(d) (remnant clause) F also removes derivedFilename from InvalidGoFiles and clears the error it returns only under a
+//	    condition on what remains of InvalidGoFiles — a derived file go/build cannot read (cut before its package clause is
+//	    complete) is then not an error, and no other error is swallowed.
 //
 // G17 (stale signatures) is discharged by (a)–(c); G19 (interrupted write) by (a)–(d) or, failing that, by an atomic replace.
 type staleHiding struct {
@@ -184,6 +184,35 @@ func analyseHook(c *Ctx, h *staleHiding, owner *Body, typ *ast.FuncType, body *a
 		return false, false
 	}
 	importPath := params[1]
+	// context form (g22b.go): no edit of the returned package's GoFiles anywhere in the hook
+	editsGoFiles := nodeHas(body, func(k ast.Node) bool {
+		as, ok := k.(*ast.AssignStmt)
+		if !ok || len(as.Lhs) != 1 {
+			return false
+		}
+		sel, ok := as.Lhs[0].(*ast.SelectorExpr)
+		return ok && sel.Sel.Name == "GoFiles"
+	})
+	if !editsGoFiles {
+		a := &ctxHiding{c: c, derived: derived, fail: fail, memo: map[*ast.BlockStmt]bool{}}
+		ok := a.analyse(hookFn{info: info, pkg: owner.Pkg, typ: typ, body: body, pos: pos, params: params}, 1, false, 0)
+		if !ok {
+			if len(h.findings) == 0 {
+				fail("not-hidden", "the FindPackage hook neither removes "+derived+" from the GoFiles of the package it returns nor reads the package directory through a context that hides it: the previous output is parsed and type-checked with the user's files", pos, false)
+			}
+			return false, false
+		}
+		goFilesOK = true
+		if a.staleObj != nil {
+			goFilesOK = staleMarking(c, h, owner, a.staleObj, fail)
+		}
+		if goFilesOK {
+			h.samples = append(h.samples, map[string]string{"rule": "G22 previous output hidden from the first load (context form)", "hook": r.pos(pos)})
+			h.samples = append(h.samples, a.samples...)
+		}
+		// go/build never sees the derived file: a remnant cannot be an invalid file, rename the package or fail the load
+		return goFilesOK, goFilesOK
+	}
 	// bp, err := ctxt.Import(importPath, …)
 	var bpObj, errObj types.Object
 	imports := 0
